@@ -177,6 +177,8 @@ def run(chk):
             chk.shape("R7", f"try_parse_child_parents[{cfg}]/key", ok, "field_path_str:" in src and "is_whitespace" not in src, ATTR, fp.line,
                       "child_parents entries must be keyed by the whitespace-free dotted path (the form the prefixes are compared in)", found=src[-200:])
     chk.guard("R7", r7)
+    from .c05 import import_lookup_contracts
+    chk.guard("R8", lambda: import_lookup_contracts(chk, "R8", ["child", "child_parents_attr", "parameterized_parent_attr", "has_parent_attr", "has_parameterless_parent_attr"], with_chain=False))
 
 
 def render_pat_(p):
